@@ -319,7 +319,45 @@ def rule_count_before_normalize(ctx: Ctx, rep: Report) -> None:
     rep.floor(rule, 1)
 
 
+def rule_electrum_normalize_order(ctx: Ctx, rep: Report) -> None:
+    """C13.electrum_normalize_order: Electrum's normalize_text decomposes (NFKD),
+    *then* lowers, then drops the combining marks and collapses blanks. The
+    order is content: U+2122 decomposes to "TM" and has no lower case of its
+    own, so lowering first leaves capitals in the seed text and the version
+    HMAC and PBKDF2 are taken over another spelling than Electrum's. In
+    `_normalize` the text that is lowered has been through
+    `unicodedata.normalize` -- followed along the reassignments of the local."""
+    rule = "C13.electrum_normalize_order"
+    fi = ctx.func("btclib.mnemonic.electrum._normalize")
+    lows = sorted([c for c in own_nodes(fi.node) if isinstance(c, ast.Call) and isinstance(c.func, ast.Attribute) and c.func.attr in ("lower", "casefold") and not c.args], key=lambda c: c.lineno)
+    nfs = sorted([c for c in own_nodes(fi.node) if isinstance(c, ast.Call) and str(norm(c.func)) == "unicodedata.normalize"], key=lambda c: c.lineno)
+    if not lows or not nfs:
+        rep.ob(rule, "_normalize:steps", False, fi.where(), f"{len(nfs)} normalize and {len(lows)} lower steps found")
+        return
+    low = lows[0]
+    # decomposed before: the receiver holds a normalize call, or is a local last assigned (before this line) from an expression that holds one / from such a local
+    def decomposed(e: ast.AST, line: int, depth: int = 0) -> bool:
+        if any(isinstance(x, ast.Call) and str(norm(x.func)) == "unicodedata.normalize" for x in ast.walk(e)):
+            return True
+        if depth > 4:
+            return False
+        for nm in {x.id for x in ast.walk(e) if isinstance(x, ast.Name)}:
+            prev = [a for a in own_nodes(fi.node) if isinstance(a, ast.Assign) and any(isinstance(t, ast.Name) and t.id == nm for t in a.targets) and a.lineno < line]
+            if prev:
+                a = max(prev, key=lambda a_: a_.lineno)
+                if decomposed(a.value, a.lineno, depth + 1):
+                    return True
+        return False
+    ok = decomposed(low.func.value, low.lineno) and not any(isinstance(x, ast.Call) and isinstance(x.func, ast.Attribute) and x.func.attr in ("lower", "casefold") for n_ in nfs for x in ast.walk(n_))
+    rep.ob(rule, "_normalize:nfkd_then_lower", ok, fi.where(low), "the text is decomposed, then lowered" if ok else
+           f"`{norm(low)[:50]}` lowers text that has not been decomposed yet (or the decomposition is applied to lowered text): characters whose decomposition has capitals keep them")
+    okf = all(isinstance(n_.args[0], ast.Constant) and n_.args[0].value == "NFKD" for n_ in nfs if n_.args)
+    rep.ob(rule, "_normalize:form", okf, fi.where(nfs[0]), "NFKD")
+    rep.floor(rule, 2)
+
+
 RULES = [
+    ("C13.electrum_normalize_order", rule_electrum_normalize_order),
     ("C13.slip39_padding", rule_slip39_padding),
     ("C13.passphrase_as_typed", rule_passphrase_as_typed),
     ("C13.count_before_normalize", rule_count_before_normalize),
